@@ -336,6 +336,43 @@ where
 
 type EV<'a> = Views!(&'a VA, Option<&'a mut VB>, &'a mut VC);
 
+/// the registry positions of a list of entry views, computed by the REAL `indices()` the way
+/// `query::entries::Entry::query` computes them
+fn real_indices<'a, V, I>() -> V::Indices
+where
+    V: crate::query::view::Views<'a>,
+    V3: crate::registry::ContainsViews<'a, V, I>,
+{
+    use crate::registry::contains::views::{ContainsViewsOuter, Sealed as ContainsViewsSealed};
+    <<V3 as ContainsViewsSealed<'a, V, I>>::Viewable as ContainsViewsOuter<
+        'a,
+        V,
+        <V3 as ContainsViewsSealed<'a, V, I>>::Containments,
+        <V3 as ContainsViewsSealed<'a, V, I>>::Indices,
+        <V3 as ContainsViewsSealed<'a, V, I>>::ReshapeIndices,
+    >>::indices()
+}
+
+/// C03: `indices()` gives every entry view the registry position of ITS component, whatever view
+/// kinds precede it (all six orders / kinds below would shift a later index if one link of the
+/// type-level recursion passed the wrong registry on)
+#[kani::proof]
+fn view_entry_indices_are_registry_positions() {
+    let (a, (b, (c, _))) = real_indices::<EV<'static>, _>();
+    assert!(a == 0 && b == 1 && c == 2, "C03: (&VA, Option<&mut VB>, &mut VC) -> positions 0, 1, 2");
+    let (c2, (a2, _)) = real_indices::<Views!(&'static mut VC, Option<&'static VA>), _>();
+    assert!(c2 == 2 && a2 == 0, "C03: (&mut VC, Option<&VA>) -> positions 2, 0");
+    let (a3, (c3, _)) = real_indices::<Views!(Option<&'static mut VA>, &'static VC), _>();
+    assert!(a3 == 0 && c3 == 2, "C03: (Option<&mut VA>, &VC) -> positions 0, 2 (a view after Option<&mut _> keeps its own position)");
+    let (b4, (c4, _)) = real_indices::<Views!(Option<&'static VB>, &'static mut VC), _>();
+    assert!(b4 == 1 && c4 == 2, "C03: (Option<&VB>, &mut VC) -> positions 1, 2");
+    let (a5, (b5, (c5, _))) = real_indices::<Views!(&'static mut VA, &'static VB, Option<&'static mut VC>), _>();
+    assert!(a5 == 0 && b5 == 1 && c5 == 2, "C03: (&mut VA, &VB, Option<&mut VC>) -> positions 0, 1, 2");
+    let (a6, (c6, _)) = real_indices::<Views!(Option<&'static mut VA>, Option<&'static mut VC>), _>();
+    assert!(a6 == 0 && c6 == 2, "C03: (Option<&mut VA>, Option<&mut VC>) -> positions 0, 2");
+}
+
+
 macro_rules! entry_filter_harness {
     ($name:ident, $filter:ty, |$b:ident| $spec:expr) => {
         #[kani::proof]
@@ -344,8 +381,9 @@ macro_rules! entry_filter_harness {
             let $b: u8 = kani::any();
             kani::assume($b < 8);
             let id = unsafe { Identifier::<V3>::new(vec![$b]) };
-            // registry positions of the entry views (&VA, Option<&mut VB>, &mut VC)
-            let indices = (0usize, (1usize, (2usize, qview::Null)));
+            // registry positions of the entry views (&VA, Option<&mut VB>, &mut VC), computed by the
+            // real `indices()` as `Entry::query` does
+            let indices = real_indices::<EV<'static>, _>();
             let got = entry_filter::<EV<'static>, $filter, _>(&indices, unsafe { id.as_ref() });
             assert!(got == $spec, "C03: an Entries sub-query matches iff the entity's component set satisfies the filter");
         }
